@@ -662,9 +662,9 @@ def get_sqrtprec_from_sqrtprec(dim, sqrtprec, sparse_flag):
     elif sqrtprec.ndim == 2 and sqrtprec.shape[0] != sqrtprec.shape[1]:
         raise ValueError("sqrtprec must be square")     
 
-    # sqrtprec is sparse diagonal
-    elif spa.isspmatrix_dia(sqrtprec):
-        logdet = np.sum(-np.log(sqrtprec.data**2))
+    # sqrtprec is sparse in diagonal storage and diagonal or triangular (determinant is the product of the main diagonal)
+    elif spa.isspmatrix_dia(sqrtprec) and (np.all(sqrtprec.offsets >= 0) or np.all(sqrtprec.offsets <= 0)):
+        logdet = np.sum(-np.log(sqrtprec.diagonal()**2))
         rank = dim
 
     # sqrtprec is LinearOperator
